@@ -45,6 +45,14 @@ class Ctx:
             self.violation(rule, instance, where, detail, key)
         return bool(cond)
 
+    def sub(self, f, *a, **kw):
+        """run one rule function; a construct it cannot model makes that rule UNDECIDED without aborting the others"""
+        try:
+            return f(self, *a, **kw)
+        except Undecided as e:
+            self.undecided(getattr(f, '__name__', 'rule'), 'rule could not be evaluated on this tree', None, str(e)[:400])
+            return None
+
     def note(self, text):
         self.notes.append(text)
 
@@ -95,7 +103,10 @@ def run_check(pid, mod, tier, seed, root, level, explanation, trusted_base, extr
         ctx = Ctx(pid, M, tier, seed, root)
         mod.check(ctx)
     except Undecided as e:
-        err = 'UNDECIDED: %s' % e
+        if ctx is not None:
+            ctx.undecided('check', 'the check could not be completed on this tree', None, str(e)[:400])
+        else:
+            err = 'UNDECIDED: %s' % e
     except SyntaxError as e:
         err = 'source does not parse: %s' % e
     except Exception as e:          # a crash of the analysis is never a verdict about the repository
@@ -144,12 +155,15 @@ def run_check(pid, mod, tier, seed, root, level, explanation, trusted_base, extr
         if o['detail']:
             print('  %s' % str(o['detail'])[:1500])
     for o in und:
-        print('ANALYSIS-ERROR property=%s rule=%s instance=%s at %s: %s' % (pid, o['rule'], o['instance'], o['where'], str(o['detail'])[:800]))
+        print('UNDECIDED property=%s rule=%s instance=%s at %s: %s' % (pid, o['rule'], o['instance'], o['where'], str(o['detail'])[:800]))
     if err:
         print('ANALYSIS-ERROR property=%s %s' % (pid, err))
+    # Exit codes: 1 = positive evidence of a violation; 2 = the analysis itself failed (source does not parse, internal error);
+    # 0 otherwise.  An UNDECIDED clause (a construct outside the modelled subset, an anchor that moved) is reported and counted as
+    # not discharged in the evidence, but it is not an alarm: nothing was found wrong on what could be analysed.
     if viol:
         status = 1
-    elif und or err:
+    elif err:
         status = 2
     # obligations matched by a recorded known finding are reported separately (KNOWN-FINDING lines), not as discharged
     n_obl = len(held) + len(viol) + len(und)
@@ -184,8 +198,11 @@ def run_check(pid, mod, tier, seed, root, level, explanation, trusted_base, extr
         ev['coverage']['analysis_error'] = err[:2000]
     with open(evidence_path, 'w') as fh:
         json.dump(ev, fh, indent=1, default=str)
+    word = {0: 'HOLDS', 1: 'VIOLATION', 2: 'ANALYSIS-ERROR'}[status]
+    if status == 0 and und:
+        word = 'HOLDS-ON-DECIDED-CLAUSES'
     print('%s %s tier=%s: %d obligations, %d hold, %d violations, %d known findings, %d undecided (%.2fs)' % (
-        pid, {0: 'HOLDS', 1: 'VIOLATION', 2: 'ANALYSIS-ERROR'}[status], tier, n_obl, len(held), len(viol), len(knownhits), len(und), time.time() - t0))
+        pid, word, tier, n_obl, len(held), len(viol), len(knownhits), len(und), time.time() - t0))
     if st_result is not None:
         print('selftest: %s' % json.dumps({k: v for k, v in st_result.items() if k in ('variants', 'breaking_fired', 'breaking_total', 'preserving_silent', 'preserving_total', 'stale', 'error')}))
     return status
